@@ -12,9 +12,14 @@ from props import index_common as ic
 MODULES = ['FeVerif.Props.C18']
 
 
+CALLS = [0]
+COUNTS = [None]       # per-type counts reported by the last extraction that was asked for them
+
+
 def extract(path, out, via_app=False, save_index=True, stale=None):
     """Returns ('ok', count|None, output bytes|None, index bytes|None) or ('raise', text).
     `stale` = (old output bytes | None, old index bytes | None): files an earlier extraction left at the output paths."""
+    COUNTS[0] = None
     for f in (out, os.path.splitext(out)[0] + '.p1i'):
         if os.path.exists(f):
             os.remove(f)
@@ -48,7 +53,14 @@ def extract(path, out, via_app=False, save_index=True, stale=None):
             count = None
         else:
             from fusion_engine_client.utils.log import extract_fusion_engine_log
-            count = int(extract_fusion_engine_log(path, out, warn_on_gaps=False, save_index=save_index))
+            CALLS[0] += 1
+            if CALLS[0] % 3 != 0:
+                count = int(extract_fusion_engine_log(path, out, warn_on_gaps=False, save_index=save_index))
+            else:
+                # the other result form: (count, {message type: count})
+                count, per_type = extract_fusion_engine_log(path, out, warn_on_gaps=False, save_index=save_index, return_counts=True)
+                count = int(count)
+                COUNTS[0] = dict((int(k), int(v)) for k, v in per_type.items() if int(v) != 0)
     except SystemExit as e:
         return ('raise', 'SystemExit %s' % e.code)
     except BaseException as e:
@@ -61,10 +73,29 @@ def extract(path, out, via_app=False, save_index=True, stale=None):
 
 def extract_in_place(path, how):
     """Extract `path` (a .p1log) with the output resolving to the same file. Returns ('ok', bytes now in the file | None) or ('raise', text)."""
+    extra = []
     try:
         if how == 'func-default-name':
             from fusion_engine_client.utils.log import extract_fusion_engine_log
             extract_fusion_engine_log(path, warn_on_gaps=False)
+        elif how.startswith('func-'):
+            # input and output are two different NAMES of the same file
+            from fusion_engine_client.utils.log import extract_fusion_engine_log
+            d = os.path.dirname(path)
+            if how == 'func-through-symlinked-directory':
+                link = os.path.join(d, 'c18_dirlink')
+                extra.append(link)
+                if os.path.lexists(link):
+                    os.remove(link)
+                os.symlink(d, link)
+                src = os.path.join(link, os.path.basename(path))
+            else:
+                src = os.path.join(d, 'c18_other_name.p1log')
+                extra.append(src)
+                if os.path.lexists(src):
+                    os.remove(src)
+                (os.symlink if 'symlink' in how else os.link)(path, src)
+            extract_fusion_engine_log(src, path, warn_on_gaps=False)
         else:
             from fusion_engine_client.applications import p1_extract
             argv = sys.argv
@@ -79,6 +110,10 @@ def extract_in_place(path, how):
             return ('raise', 'SystemExit %s' % e.code)
     except BaseException as e:
         return ('raise', '%s: %s' % (type(e).__name__, str(e)[:100]))
+    finally:
+        for f in extra:
+            if os.path.lexists(f):
+                os.remove(f)
     return ('ok', open(path, 'rb').read() if os.path.exists(path) else None)
 
 
@@ -144,6 +179,9 @@ def one_file(ctx, data, kinds, lines, pending, via_app=False, save_index=True, s
         ctx.violation('C18/extraction-raised', 'extraction raised %s' % r1[1], replay)
         return
     _, count, ob, ib = r1
+    if COUNTS[0] is not None:
+        replay['per_type_counts'] = dict((str(k), v) for k, v in COUNTS[0].items())
+        ctx.count('extractions_with_return_counts')
     lines.append('extract %s' % (data.hex() or '-'))
     fresh = None
     again = None
@@ -161,7 +199,8 @@ def one_file(ctx, data, kinds, lines, pending, via_app=False, save_index=True, s
         # "extracting the output again" in the most direct way: the output file itself with the default output name
         # (<stem>.p1log = the same file), through the function and through the p1_extract tool
         if again[0] == 'ok' and again[2] == ob:
-            for how in ('func-default-name', 'app-same-stem'):
+            for how in ('func-default-name', 'app-same-stem', 'func-input-is-symlink-to-output', 'func-input-is-hard-link-of-output',
+                        'func-through-symlinked-directory'):
                 src3 = os.path.join(d, 'c18_again.p1log')
                 with open(src3, 'wb') as f:
                     f.write(ob)
@@ -195,6 +234,17 @@ def judge(ctx, replay, count, ob, ib, fresh, again, mo):
                       'extraction wrote %s bytes / reported %s messages; the sequential scan of the input gives %s bytes / %s messages' %
                       ('no file' if ob is None else len(ob), count, 'no file' if mout == 'nofile' else len(mout) // 2, mcount), replay)
         return
+    if 'per_type_counts' in replay:
+        want = {}
+        o = 0
+        b = ob or b''
+        while o + 24 <= len(b):
+            t = int.from_bytes(b[o + 10:o + 12], 'little')
+            want[str(t)] = want.get(str(t), 0) + 1
+            o += 24 + int.from_bytes(b[o + 16:o + 20], 'little')
+        if replay['per_type_counts'] != want:
+            ctx.violation('C18/per-type-counts-wrong', 'return_counts=True reported %s; the output holds %s' %
+                          (replay['per_type_counts'], want), replay)
     if ob is None:
         if ib is not None:
             ctx.violation('C18/index-without-output', 'no message was found and no output exists, but an index file is at the output '
